@@ -28,6 +28,10 @@ pub fn needs_truncation<I: Interner>(
     let mut visitor = TySizeVisitor::new(interner, infer);
     value.visit_with(&mut visitor, DebruijnIndex::INNERMOST);
 
+    #[cfg(chalk_verif)]
+    if visitor.max_size > max_size {
+        chalk_ir::verif::probe("solve.needs_truncation");
+    }
     visitor.max_size > max_size
 }
 
